@@ -60,17 +60,48 @@ def matches_known(mod, entry, subcheck: str, spec, clause: str) -> bool:
     return True
 
 
+class CaseTimeout(BaseException):
+    """Raised by the CPU-time watchdog; BaseException so that `except Exception` in oracles or in the code under
+    test does not turn it into a verdict."""
+
+
+CASE_CPU_SECONDS = float(os.environ.get('PV_CASE_CPU_SECONDS', '300'))
+
+
 def eval_case(sub: SubCheck, spec):
-    """-> ('ok', CaseInfo) | ('reject', why) | ('fail', Violation)"""
+    """-> ('ok', CaseInfo) | ('reject', why) | ('fail', Violation) | ('timeout', None)
+
+    A case that burns more than CASE_CPU_SECONDS of CPU in this process (sympy's dsolve / simplify do not
+    terminate on some inputs) is abandoned and counted as inconclusive -- a budget hit is never a violation.
+    ITIMER_VIRTUAL counts CPU time, so machine load does not matter, and it is independent of the ITIMER_REAL
+    alarms some check modules use themselves."""
+    import signal
+    import threading
+
+    armed = hasattr(signal, 'SIGVTALRM') and threading.current_thread() is threading.main_thread() and CASE_CPU_SECONDS > 0
+    if armed:
+
+        def _handler(signum, frame):
+            raise CaseTimeout()
+
+        old = signal.signal(signal.SIGVTALRM, _handler)
+        signal.setitimer(signal.ITIMER_VIRTUAL, CASE_CPU_SECONDS)
     try:
-        info = sub.run(spec)
-        if info is None:
-            info = CaseInfo()
-        return 'ok', info
-    except Reject as r:
-        return 'reject', r.why
-    except Violation as v:
-        return 'fail', v
+        try:
+            info = sub.run(spec)
+            if info is None:
+                info = CaseInfo()
+            return 'ok', info
+        except Reject as r:
+            return 'reject', r.why
+        except Violation as v:
+            return 'fail', v
+        except CaseTimeout:
+            return 'timeout', None
+    finally:
+        if armed:
+            signal.setitimer(signal.ITIMER_VIRTUAL, 0)
+            signal.signal(signal.SIGVTALRM, old)
 
 
 def _jsonable(x):
@@ -81,9 +112,20 @@ def _jsonable(x):
         return repr(x)[:2000]
 
 
+_POISONED = [False]
+
+
 def run_shard(prop, subname, shard, nshards, n, seed, tier):
     """Executed in a worker process."""
     os.environ.setdefault('PYTHONHASHSEED', '0')
+    if _POISONED[0]:
+        # an earlier case in this process was interrupted asynchronously by the CPU watchdog: module state
+        # (half-finished imports, caches) may be inconsistent, so later shards run in a fresh interpreter
+        import multiprocessing as mp
+        from concurrent.futures import ProcessPoolExecutor
+
+        with ProcessPoolExecutor(max_workers=1, mp_context=mp.get_context('spawn')) as ex:
+            return ex.submit(run_shard, prop, subname, shard, nshards, n, seed, tier).result()
     out = dict(
         sub=subname, shard=shard, evaluations=0, cases=0, rejected={}, classes={}, nontrivial=[],
         samples=[], failures=[], skipped=0, harness_error=None, wall=0.0, excluded_known=0,
@@ -100,11 +142,16 @@ def run_shard(prop, subname, shard, nshards, n, seed, tier):
         perbucket = collections.Counter()
 
         def one(spec):
-            if time.time() - t0 > limit:
+            if time.time() - t0 > limit or _POISONED[0]:
                 out['skipped'] += 1
                 return
             out['cases'] += 1
             kind, res = eval_case(sub, spec)
+            if kind == 'timeout':
+                out['skipped'] += 1
+                classes['case-cpu-timeout(inconclusive; rest of the shard skipped)'] += 1
+                _POISONED[0] = True
+                return
             if kind == 'reject':
                 rejected[(res or '')[:60]] += 1
                 return
